@@ -96,6 +96,13 @@ def apply(scene, step, counter):
     elif step == "switch-library":
         cur = scene.options["library_folders"][0]
         scene.options["library_folders"] = [scene.libs["libB"] if cur == scene.libs["libA"] else scene.libs["libA"]]
+    elif step in ("future-edit-model", "future-edit-library"):
+        # an edit whose mtime is far AHEAD of the clock (restored backup, clock skew): later edits still get later-than-cache mtimes
+        path = os.path.join(scene.folder, "M.mo") if step.endswith("model") else os.path.join(scene.options["library_folders"][0], "Lib.mo")
+        with open(path, "w") as f:
+            f.write(model_text(11.0 + counter) if step.endswith("model") else lib_text(13.0 + counter))
+        t = scene.clock + 36000
+        os.utime(path, (t, t))
     elif step == "call":
         pass
 
@@ -135,6 +142,8 @@ def main():
     hists = [h for n in range(1, depth + 1) for h in itertools.product(STEPS, repeat=n)]
     if tier == "quick":
         hists = [h for h in hists if len(h) < 3 or (h[0] == "call" or h[1] == "call")]
+    hists += [("future-edit-model", "edit-library"), ("call", "future-edit-model", "edit-model"), ("future-edit-library", "edit-model", "call"),
+              ("call", "future-edit-library", "call", "edit-library"), ("future-edit-model", "call", "add-file")]
     failures, cases = [], 0
     for h in hists:
         cases += 1
@@ -145,7 +154,7 @@ def main():
                 break
     if payload.get("mode") == "bounded":
         print(json.dumps({"performed": True, "cases": cases, "distinct_nontrivial": cases, "failures": failures,
-                          "rule": "histories over {call, edit-model, edit-library, add-file, option change, version change} up to length %d with explicit, strictly increasing mtimes; after every step the real transfer_model(cache=True) is compared with a fresh compile of the current sources and options (library folder switches are exercised by the replay of the known finding only)" % depth,
+                          "rule": "histories over {call, edit-model, edit-library, add-file, option change, version change} up to length %d with explicit, strictly increasing mtimes, plus histories in which one file carries an mtime far ahead of the clock before later edits; after every step the real transfer_model(cache=True) is compared with a fresh compile of the current sources and options (library folder switches are exercised by the replay of the known finding only)" % depth,
                           "bound": "length <= %d, one model" % depth}))
     else:
         f = failures[0] if failures else None
